@@ -4,6 +4,9 @@
 #include "TFEL/Math/tmatrix.hxx"
 #include "TFEL/Math/TinyMatrixSolve.hxx"
 #include "TFEL/Math/TinyMatrixInvert.hxx"
+#include "TFEL/Math/vector.hxx"
+#include "TFEL/Math/matrix.hxx"
+#include "TFEL/Math/LUSolve.hxx"
 #include "vsym/driver.hxx"
 using namespace tfel::math;
 
@@ -106,7 +109,22 @@ template <unsigned short N, class E> void c_lu(E& e) {
   auto x = b;
   TinyPermutation<N> p;
   using S = TinyMatrixSolveBase<N, T, false, false>;
-  const bool ok = S::decomp(m, p, eps) && S::back_substitute(m, p, x, eps);
+  const bool ok_d = S::decomp(m, p, eps);
+  if (!ok_d) {
+    // a refusal is justified: at the failing column i (all earlier pivots were accepted) every remaining candidate is below eps, i.e.
+    // the matrix is singular to the requested precision. m and p are the state LUDecomp left behind when it returned false.
+    std::vector<decltype(e.tru())> cases;
+    for (unsigned short i = 0; i != N; ++i) {
+      auto c = e.lt(tfel::math::abs(m(p(i), i)), eps);
+      for (unsigned short k = 0; k != i; ++k) c = c && e.le(eps, tfel::math::abs(m(p(k), k)));
+      for (unsigned short j = i + 1; j < N; ++j) c = c && e.lt(tfel::math::abs(m(p(j), i)), eps);
+      cases.push_back(c);
+    }
+    e.ensure("LU refused: at the failing column every remaining pivot candidate is below eps (partial pivoting)", any_of(cases));
+    return;
+  }
+  const bool ok = S::back_substitute(m, p, x, eps);
+  e.ensure("back substitution succeeds after a successful decomposition", ok ? e.tru() : falsum(e));
   if (ok) {
     for (unsigned short i = 0; i != N; ++i) {
       T s = T(0);
@@ -142,6 +160,34 @@ template <unsigned short N, class E> void c_invert(E& e) {
     e.ensure("exception: nothing claimed", e.tru());
   }
 }
+// LUSolve::exe on run-time sized matrix/vector (heap storage), size fixed per contract
+template <unsigned short N, class E> void c_lusolve(E& e) {
+  using T = typename E::real;
+  const auto a = sym_matrix<N>(e);
+  const auto b = sym_vector<N>(e);
+  matrix<T> m(N, N);
+  vector<T> x(N);
+  for (unsigned short i = 0; i != N; ++i) {
+    x(i) = b(i);
+    for (unsigned short j = 0; j != N; ++j) m(i, j) = a(i, j);
+  }
+  bool raised = false;
+  try {
+    LUSolve::exe(m, x);
+  } catch (LUException&) {
+    raised = true;
+  }
+  if (!raised) {
+    for (unsigned short i = 0; i != N; ++i) {
+      T s = T(0);
+      for (unsigned short j = 0; j != N; ++j) s = s + a(i, j) * x(j);
+      e.ensure("LUSolve returned: (A x)_" + std::to_string(i) + " = b_" + std::to_string(i), e.eq(s, b(i)));
+    }
+    e.ensure("LUSolve returned: det(A) != 0", !e.eq(det_of<N, T>(a), T(0)));
+  } else {
+    e.ensure("LUSolve raised: nothing claimed", e.tru());
+  }
+}
 #define C(NAME, FN, ...) template <class E> void FN(E& e) { __VA_ARGS__(e); } VSYM_CONTRACT_B(NAME, FN, 4000)
 C("TinyMatrixSolve<1>/vector", w_s1, c_solve_vector<1, false>)
 C("TinyMatrixSolve<2>/vector", w_s2, c_solve_vector<2, false>)
@@ -153,6 +199,8 @@ C("TinyMatrixSolve<2>/matrix", w_m2, c_solve_matrix<2, 2>)
 C("TinyMatrixSolve<3>/matrix", w_m3, c_solve_matrix<3, 2>)
 C("LU<2>/decomp+back_substitute", w_lu2, c_lu<2>)
 C("LU<3>/decomp+back_substitute", w_lu3, c_lu<3>)
+C("LUSolve(2x2)", w_ls2, c_lusolve<2>)
+C("LUSolve(3x3)", w_ls3, c_lusolve<3>)
 C("TinyMatrixInvert<1>", w_i1, c_invert<1>)
 C("TinyMatrixInvert<2>", w_i2, c_invert<2>)
 #ifdef VERIF_THOROUGH
